@@ -2,12 +2,17 @@
 (***************************************************************************)
 (* The device network of simprocesd on top of the event queue:             *)
 (* Source, PartHandler, PartProcessor (shutdown / failure / restore,       *)
-(* resources), Buffer, Sink, DecisionGate, PartBatcher, the resource       *)
-(* manager's waiting list, and scripted calls issued from events           *)
+(* resources, work orders), Buffer, Sink, DecisionGate, plain              *)
+(* PartFlowController ("junction"), PartBatcher, shared-machine groups     *)
+(* (GroupPath / GroupInput / GroupOutput, nested and re-entrant), the      *)
+(* resource manager's waiting list, the Maintainer, ActionSchedulers that  *)
+(* block device inputs, and scripted calls issued from events, including   *)
+(* set_upstream during a run                                               *)
 (* (model/factory_floor/*.py, model/resource_manager.py).                  *)
 (*                                                                         *)
 (* Written to be bound: one operator per event kind the code schedules     *)
-(* (FinishCycle, PassPart, ReleaseIfIdle, Fail, CheckPending, Script) and  *)
+(* (FinishCycle, PassPart, ReleaseIfIdle, Fail, CheckPending, StartOrder,  *)
+(* FinishOrder, SchedTransition, Script) and                               *)
 (* helper operators that mirror the code's synchronous call structure      *)
 (* (Give, Accept, NotifyUp, SpaceAvail, SchedulePass, ScheduleFinish,      *)
 (* SortedDown).  Every operator maps a state record S to a state record;   *)
@@ -28,9 +33,8 @@
 (*  S.pool[r] = [used, cap]    S.waitq = devices waiting for resources     *)
 (*  S.lost    = <<dev, part>> pairs reported lost by failures              *)
 (*  S.cnt[label][d], S.lastlevel[d], S.lastres[r]: recorded datapoints     *)
-(*  S.sch[i]  = action scheduler i of the configuration: [idx, state, nrec]; its  *)
-(*              action blocks the input of its target devices in state "off" and  *)
-(*              unblocks it in any other state                                    *)
+(*  S.sch[i]  = action scheduler i: [idx, state, nrec]; its action blocks *)
+(*              the input of its targets in state "off", unblocks otherwise *)
 (*  S.mt      = the maintainer: [queue, active, util, value, nvh, enter,   *)
 (*              start, finish]; an order is <<target device, tag>>         *)
 (*  S.nleaf   = number of leaf parts generated so far                      *)
@@ -197,13 +201,6 @@ WaitKey(S, d, depth) ==
          IN mn(1)
 
 (* stable sort of the downstream list by waiting-since (sorted(...) in Python is stable) *)
-RECURSIVE InsertSorted(_, _, _)
-InsertSorted(S, sorted, x) ==
-    IF sorted = <<>> THEN <<x>>
-    ELSE IF WaitKey(S, x, 0) < WaitKey(S, Head(sorted), 0) THEN <<x>> \o sorted
-    ELSE <<Head(sorted)>> \o InsertSorted(S, Tail(sorted), x)
-RECURSIVE SortRev(_, _, _)
-SortRev(S, ds, i) == IF i = 0 THEN <<>> ELSE InsertSorted(S, SortRev(S, ds, i - 1), ds[i])
 (* inserting in original order with strict < keeps equal keys in original order *)
 RECURSIVE InsertStable(_, _, _)
 InsertStable(S, sorted, x) ==
